@@ -1003,12 +1003,13 @@ Proof.
 Qed.
 
 (* ---- one rendered pixel = nearest_fold instance *)
-Theorem render_pixel_spec (cull : bool) (cam_xpos cam_xmat dir_local : list R)
+Theorem render_pixel_spec (cull : bool) (proj : Z) (fovy : R) (W Hh local : Z) (cam_xpos cam_xmat dir_local : list R)
         (gd : list R -> list R -> Z -> R * list R) (order : list Z) :
   (forall g, In g order -> (0 <= g)%Z) ->
   let dir_world := @mat_vec R ScalarR 3 3 cam_xmat dir_local in
-  let cand := fun g => cull_hit cull dir_world (gd cam_xpos dir_world g) in
-  let '(depth, seg) := render_pixel cull cam_xpos cam_xmat dir_local gd order in
+  let origin := render_origin proj fovy W Hh local cam_xpos cam_xmat in
+  let cand := fun g => cull_hit cull dir_world (gd origin dir_world g) in
+  let '(depth, seg) := render_pixel cull proj fovy W Hh local cam_xpos cam_xmat dir_local gd order in
   ((forall g, In g order -> ~ elig cand g) /\ depth = 0 /\ seg = ((-1)%Z, (-1)%Z))
   \/
   (exists g, In g order /\ elig cand g /\ seg = (g, 5%Z) /\
@@ -1017,7 +1018,8 @@ Theorem render_pixel_spec (cull : bool) (cam_xpos cam_xmat dir_local : list R)
 Proof.
   intros Hpos. cbv zeta. unfold render_pixel.
   set (dir_world := mat_vec 3 3 cam_xmat dir_local).
-  set (cand := fun g => cull_hit cull dir_world (gd cam_xpos dir_world g)).
+  set (origin := render_origin proj fovy W Hh local cam_xpos cam_xmat).
+  set (cand := fun g => cull_hit cull dir_world (gd origin dir_world g)).
   pose proof (bvh_loop_spec cand order) as Hs. unfold render_out.
   destruct Hs as [[Ha Hn] | Hf].
   - rewrite Ha. cbn [ageom racc0 fst snd Z.eqb]. left. split; [assumption|]. split; reflexivity.
@@ -1031,35 +1033,78 @@ Proof.
     + intros g' Hg' Hel. rewrite <- Hd. now apply Hle.
 Qed.
 
-(* ---- orthographic cameras: the kernel casts the SAME ray for every pixel *)
-Theorem ortho_rays_coincide fovy sens intr W Hh px py px' py' znear :
-  render_ray_cam (compute_ray 1 fovy sens intr W Hh px py znear)
-  = render_ray_cam (compute_ray 1 fovy sens intr W Hh px' py' znear).
-Proof. rewrite !pixel_ray_orthographic. reflexivity. Qed.
+(* every projection but the orthographic one starts the ray at the camera position *)
+Lemma render_origin_perspective proj fovy W Hh local (cam_xpos cam_xmat : list R) :
+  proj <> 1%Z -> render_origin proj fovy W Hh local cam_xpos cam_xmat = cam_xpos.
+Proof. intros Hp. unfold render_origin. destruct (Z.eqb_spec proj 1); [contradiction | reflexivity]. Qed.
 
-Theorem ortho_image_constant cull cam_xpos cam_xmat gd order fovy sens intr W Hh px py px' py' znear :
-  render_pixel cull cam_xpos cam_xmat (compute_ray 1 fovy sens intr W Hh px py znear) gd order
-  = render_pixel cull cam_xpos cam_xmat (compute_ray 1 fovy sens intr W Hh px' py' znear) gd order.
-Proof. rewrite !pixel_ray_orthographic. reflexivity. Qed.
+(* the world origin is the camera-frame origin mapped by the camera pose *)
+Lemma render_origin_world proj fovy W Hh local cx cy cz m00 m01 m02 m10 m11 m12 m20 m21 m22 :
+  let cam_xmat := m9 m00 m01 m02 m10 m11 m12 m20 m21 m22 in
+  render_origin proj fovy W Hh local [cx; cy; cz] cam_xmat
+  = @vadd R ScalarR [cx; cy; cz] (@mat_vec R ScalarR 3 3 cam_xmat (render_origin_cam proj fovy W Hh local)).
+Proof.
+  cbv zeta. unfold render_origin, render_origin_cam. destruct (Z.eqb proj 1); [reflexivity|].
+  unfold zero3, m9. vsimp.
+  match goal with |- [?a; ?b; ?c] = [?a'; ?b'; ?c'] => replace a' with a by ring; replace b' with b by ring; replace c' with c by ring end.
+  reflexivity.
+Qed.
 
 (* a point lies on the ray (origin, direction) *)
 Definition on_ray (r : list R * list R) (p : list R) : Prop :=
   exists t, p = @vadd R ScalarR (fst r) (@vscaler R ScalarR (snd r) t).
 
-(* the orthographic pixel ray "through the pixel centre" would have to pass through the
-   centre of pixel (px,py) on the image plane (half-extents hw x hh); the ray the kernel casts
-   passes through none but the central point: refuted with a 2x1 image *)
-Theorem pixel_ray_orthographic_refuted :
-  exists (W Hh px py : Z) (hw hh znear : R),
-    0 < hw /\ 0 < hh /\ 0 < znear /\ (0 <= px < W)%Z /\ (0 <= py < Hh)%Z /\
-    ~ on_ray (render_ray_cam (compute_ray 1 45 [0; 0] [0; 0; 0; 0] W Hh px py znear))
-             (plane_point (- hw) hw hh (- hh) znear W Hh px py).
+(* ---- orthographic cameras (after /repo 2e971a4): the ray of pixel (px,py) (local index px + py W) is
+        parallel to the optical axis and passes through the centre of that pixel on the image window of
+        height fovy (half extents hw = (fovy/2) W/H, hh = fovy/2), at any depth znear *)
+Theorem pixel_ray_orthographic_origin fovy sens intr W Hh px py znear :
+  (0 < W)%Z -> (0 < Hh)%Z -> (0 <= px < W)%Z -> (0 <= py)%Z ->
+  let hh := fovy / 2 in let hw := hh * IZR W / IZR Hh in
+  let r := render_ray_cam 1 fovy W Hh (px + py * W) (compute_ray 1 fovy sens intr W Hh px py znear) in
+  snd r = [0; 0; -1] /\
+  fst r = [hw * (2 * pu W px - 1); hh * (1 - 2 * pv Hh py); 0] /\
+  on_ray r (plane_point (- hw) hw hh (- hh) znear W Hh px py).
 Proof.
-  exists 2%Z, 1%Z, 0%Z, 0%Z, 1, 1, 1. repeat split; try lra; try lia.
-  rewrite pixel_ray_orthographic. unfold on_ray, render_ray_cam, plane_point. cbn [fst snd].
-  intros (t & Ht). revert Ht. unfold zero3. vsimp. intros Ht. injection Ht as H0 _ _. lra.
+  intros HW HH Hpx Hpy. cbv zeta.
+  assert (HWr : 0 < IZR W) by (apply IZR_lt; lia). assert (HHr : 0 < IZR Hh) by (apply IZR_lt; lia).
+  destruct (build_rays_index W px py Hpx Hpy) as [Hr Hq].
+  unfold render_ray_cam, render_origin_cam, ortho_offset_cam. cbn [Z.eqb Pos.eqb fst snd].
+  rewrite Hr, Hq, pixel_ray_orthographic.
+  assert (Eo : [smul (sdiv (smul (smul (slit 1 2) fovy) (sofZ W)) (sofZ Hh)) (ssub (smul (sofZ 2) (sdiv (sadd (sofZ px) (slit 1 2)) (sofZ W))) (sofZ 1));
+                smul (smul (slit 1 2) fovy) (ssub (sofZ 1) (smul (sofZ 2) (sdiv (sadd (sofZ py) (slit 1 2)) (sofZ Hh)))); s0]
+               = [fovy / 2 * IZR W / IZR Hh * (2 * pu W px - 1); fovy / 2 * (1 - 2 * pv Hh py); 0]).
+  { sR. unfold pu, pv. f_equal; [field; lra | f_equal; field; lra]. }
+  rewrite Eo. split; [reflexivity|]. split; [reflexivity|].
+  exists znear. unfold plane_point, pu, pv. vsimp. f_equal; [field; lra | f_equal; [field; lra | f_equal; ring]].
 Qed.
 
+(* distinct pixels of an orthographic camera get distinct parallel rays (fovy <> 0) *)
+Theorem ortho_rays_distinct fovy sens intr W Hh px py px' py' znear :
+  (0 < W)%Z -> (0 < Hh)%Z -> (0 <= px < W)%Z -> (0 <= py)%Z -> (0 <= px' < W)%Z -> (0 <= py')%Z -> fovy <> 0 ->
+  (px, py) <> (px', py') ->
+  let r := render_ray_cam 1 fovy W Hh (px + py * W) (compute_ray 1 fovy sens intr W Hh px py znear) in
+  let r' := render_ray_cam 1 fovy W Hh (px' + py' * W) (compute_ray 1 fovy sens intr W Hh px' py' znear) in
+  snd r = snd r' /\ fst r <> fst r'.
+Proof.
+  intros HW HH Hpx Hpy Hpx' Hpy' Hf Hne. cbv zeta.
+  assert (HWr : 0 < IZR W) by (apply IZR_lt; lia). assert (HHr : 0 < IZR Hh) by (apply IZR_lt; lia).
+  destruct (pixel_ray_orthographic_origin fovy sens intr W Hh px py znear HW HH Hpx Hpy) as (D1 & O1 & _).
+  destruct (pixel_ray_orthographic_origin fovy sens intr W Hh px' py' znear HW HH Hpx' Hpy') as (D2 & O2 & _).
+  cbv zeta in *. split; [rewrite D1, D2; reflexivity|].
+  rewrite O1, O2. intros Heq. injection Heq as Hx Hy. apply Hne.
+  unfold pu in Hx. unfold pv in Hy.
+  assert (Ex : IZR px = IZR px').
+  { assert (K : fovy / 2 * IZR W / IZR Hh <> 0) by (unfold Rdiv; repeat apply Rmult_integral_contrapositive_currified; try lra; apply Rinv_neq_0_compat; lra).
+    apply Rmult_eq_reg_l in Hx; [|exact K]. 
+    assert ((IZR px + 1 / 2) / IZR W = (IZR px' + 1 / 2) / IZR W) by lra.
+    apply (Rmult_eq_reg_r (/ IZR W)); [unfold Rdiv in H; lra | apply Rinv_neq_0_compat; lra]. }
+  assert (Ey : IZR py = IZR py').
+  { assert (K : fovy / 2 <> 0) by lra.
+    apply Rmult_eq_reg_l in Hy; [|exact K].
+    assert ((IZR py + 1 / 2) / IZR Hh = (IZR py' + 1 / 2) / IZR Hh) by lra.
+    apply (Rmult_eq_reg_r (/ IZR Hh)); [unfold Rdiv in H; lra | apply Rinv_neq_0_compat; lra]. }
+  apply eq_IZR in Ex. apply eq_IZR in Ey. congruence.
+Qed.
 
 (* ======================================================================== part 13 *)
 (* ---- ray_ellipsoid (partial: stated in the geom's local frame lp + t lv = mat^T (pnt + t vec - pos);
@@ -1190,4 +1235,127 @@ Example eliminate_examples :
 Proof.
   cbv zeta. rewrite !eliminate_as_bool. unfold elim_bool, no_group_maskb, alpha, group_slot. cbn [Z.eqb Z.ltb Z.geb Z.compare Pos.compare Pos.compare_cont Pos.eqb nth Z.to_nat Z.min Z.max negb andb orb].
   repeat match goal with |- context [Reqb ?a ?b] => let E := fresh in destruct (Reqb a b) eqn:E; rb; try lra end; cbn; split; reflexivity.
+Qed.
+
+(* ======================================================================== _ray_bvh primitive -> geom map (flex stride) *)
+(* within world w's block of the scene BVH (ngeom geoms then nflexgeom flex primitives) primitive
+   w*(ngeom+nflexgeom)+k is geom enabled_geom_ids[k] for k < ngeom and is skipped otherwise *)
+Lemma bvh_geom_of_block (n f w : Z) (en : Z -> Z) (k : Z) :
+  bvh_geom_of n f w en (w * (n + f) + k) = if Z.ltb k n then Some (en k) else None.
+Proof.
+  unfold bvh_geom_of. replace (w * (n + f) + k - w * (n + f))%Z with k by ring.
+  destruct (Z.geb_spec k n), (Z.ltb_spec k n); try lia; reflexivity.
+Qed.
+
+Definition prim_geoms (n f w : Z) (en : Z -> Z) (prims : list Z) : list Z :=
+  flat_map (fun b => match bvh_geom_of n f w en b with Some g => [g] | None => [] end) prims.
+
+Lemma bvh_prims_fold (gd : gdT) n f w en : forall prims acc,
+  fold_left (bvh_prim_step gd n f w en) prims acc = fold_left (bvh_step gd) (prim_geoms n f w en prims) acc.
+Proof.
+  induction prims as [|b prims IH]; intros acc; [reflexivity|].
+  cbn [fold_left]. unfold prim_geoms. cbn [flat_map]. rewrite fold_left_app. fold (prim_geoms n f w en prims).
+  rewrite IH. unfold bvh_prim_step. destruct (bvh_geom_of n f w en b); reflexivity.
+Qed.
+
+(* _ray_bvh over yielded primitive indices = the order-model over the geoms they denote *)
+Theorem ray_bvh_kernel_prims_eq (gd : gdT) n f w en prims :
+  ray_bvh_kernel_prims gd n f w en prims = ray_bvh_kernel gd (prim_geoms n f w en prims).
+Proof. unfold ray_bvh_kernel_prims, ray_bvh_kernel, bvh_loop. now rewrite bvh_prims_fold. Qed.
+
+(* the whole block of world w denotes exactly the enabled geoms, whatever the number of flex primitives
+   and whichever world (the defect repaired in ae9ede3 made worlds >= 1 read other entries) *)
+Lemma prim_geoms_real n f w en : forall l : list Z, (forall k, In k l -> (k < n)%Z) ->
+  prim_geoms n f w en (map (fun k => (w * (n + f) + k)%Z) l) = map en l.
+Proof.
+  induction l as [|k l IH]; intros Hl; [reflexivity|].
+  unfold prim_geoms in *. cbn [map flat_map]. rewrite bvh_geom_of_block.
+  destruct (Z.ltb_spec k n) as [_ | Hk]; [| specialize (Hl k (or_introl eq_refl)); lia].
+  cbn [app]. f_equal. apply IH. intros; apply Hl; now right.
+Qed.
+
+Lemma prim_geoms_flex n f w en : forall l : list Z, (forall k, In k l -> (n <= k)%Z) ->
+  prim_geoms n f w en (map (fun k => (w * (n + f) + k)%Z) l) = [].
+Proof.
+  induction l as [|k l IH]; intros Hl; [reflexivity|].
+  unfold prim_geoms in *. cbn [map flat_map]. rewrite bvh_geom_of_block.
+  destruct (Z.ltb_spec k n) as [Hk | _]; [specialize (Hl k (or_introl eq_refl)); lia|].
+  cbn [app]. apply IH. intros; apply Hl; now right.
+Qed.
+
+Lemma prim_geoms_app n f w en l1 l2 : prim_geoms n f w en (l1 ++ l2) = prim_geoms n f w en l1 ++ prim_geoms n f w en l2.
+Proof. unfold prim_geoms. apply flat_map_app. Qed.
+
+Theorem world_block_geoms (n f w : Z) (en : Z -> Z) : (0 <= n)%Z -> (0 <= f)%Z ->
+  prim_geoms n f w en (map (fun k => (w * (n + f) + k)%Z) (zrange (n + f))) = map en (zrange n).
+Proof.
+  intros Hn Hf. unfold zrange. replace (Z.to_nat (n + f)) with (Z.to_nat n + Z.to_nat f)%nat by lia.
+  rewrite seq_app, !map_app, prim_geoms_app.
+  rewrite prim_geoms_real, prim_geoms_flex; [apply app_nil_r | |].
+  - intros k Hk. apply in_map_iff in Hk. destruct Hk as (j & <- & Hj). apply in_seq in Hj. lia.
+  - intros k Hk. apply in_map_iff in Hk. destruct Hk as (j & <- & Hj). apply in_seq in Hj. lia.
+Qed.
+
+(* ======================================================================== _orthogonal_basis *)
+Lemma normalize3 x y z : 0 < x * x + y * y + z * z ->
+  let l := sqrt (x * x + y * y + z * z) in
+  0 < l /\ l * l = x * x + y * y + z * z /\ @vnormalize R ScalarR [x; y; z] = [x / l; y / l; z / l].
+Proof.
+  intros Hpos l. assert (Hl : 0 < l) by (apply sqrt_lt_R0; assumption).
+  assert (Hll : l * l = x * x + y * y + z * z) by (apply sqrt_sqrt; lra).
+  split; [assumption|]. split; [assumption|].
+  unfold vnormalize, vlen, vlen_sq. vsimp. fold l.
+  destruct (Rltb 0 l) eqn:E; [reflexivity | rb; lra].
+Qed.
+
+Lemma neg_inv_rel c : c <> 0 -> - (1) / c * c = -1.
+Proof. intros. field. assumption. Qed.
+
+Lemma unit_div x y z l : 0 < l -> l * l = x * x + y * y + z * z ->
+  x / l * (x / l) + y / l * (y / l) + z / l * (z / l) = 1.
+Proof. intros Hl Hll. field_simplify; [| lra]. replace (x ^ 2 + y ^ 2 + z ^ 2) with (l * l) by (rewrite Hll; ring). field. lra. Qed.
+
+From Coq Require Import Nsatz.
+
+(* _orthogonal_basis (Duff et al.) of a UNIT vector: two unit vectors orthogonal to it and to each other,
+   with no exceptional direction *)
+Theorem orthogonal_basis_unit (x y z : R) : (x * x + y * y + z * z = 1)%R ->
+  let b0 := fst (_orthogonal_basis [x; y; z]) in let b1 := snd (_orthogonal_basis [x; y; z]) in
+  (dot3 b0 [x; y; z] = 0 /\ dot3 b1 [x; y; z] = 0 /\ dot3 b0 b1 = 0 /\ dot3 b0 b0 = 1 /\ dot3 b1 b1 = 1)%R.
+Proof.
+  intros Hu. cbv zeta. unfold _orthogonal_basis, dot3. vsimp.
+  destruct (Rleb 0 z) eqn:E.
+  - apply Rleb_true in E. cbn [fst snd].
+    set (a := (- (1) / (1 + z))%R). assert (Ha : (a * (1 + z) = -1)%R) by (unfold a; apply neg_inv_rel; lra). clearbody a.
+    clear E. repeat split; nsatz.
+  - apply Rleb_false in E. cbn [fst snd].
+    set (a := (- (1) / (- (1) + z))%R). assert (Ha : (a * (- (1) + z) = -1)%R) by (unfold a; apply neg_inv_rel; lra). clearbody a.
+    clear E. repeat split; nsatz.
+Qed.
+
+(* what ray_mesh / ray_hfield use since /repo 8617230: the basis of the NORMALISED direction is
+   orthogonal to the direction itself for every non-zero vec, of any length *)
+Theorem orthogonal_basis_normalized (x y z : R) : (0 < x * x + y * y + z * z)%R ->
+  let b0 := fst (_orthogonal_basis (@vnormalize R ScalarR [x; y; z])) in
+  let b1 := snd (_orthogonal_basis (@vnormalize R ScalarR [x; y; z])) in
+  (dot3 b0 [x; y; z] = 0 /\ dot3 b1 [x; y; z] = 0 /\ dot3 b0 b1 = 0 /\ dot3 b0 b0 = 1 /\ dot3 b1 b1 = 1)%R.
+Proof.
+  intros Hpos. cbv zeta. destruct (normalize3 x y z Hpos) as (Hl & Hll & En). cbv zeta in *.
+  set (l := sqrt (x * x + y * y + z * z)) in *. rewrite En.
+  pose proof (orthogonal_basis_unit (x / l) (y / l) (z / l) (unit_div x y z l Hl Hll)) as (H0 & H1 & H2 & H3 & H4).
+  cbv zeta in *. repeat split; try assumption.
+  - replace (dot3 (fst (_orthogonal_basis [(x / l)%R; (y / l)%R; (z / l)%R])) [x; y; z])
+      with (l * dot3 (fst (_orthogonal_basis [(x / l)%R; (y / l)%R; (z / l)%R])) [(x / l)%R; (y / l)%R; (z / l)%R])%R.
+    + rewrite H0. ring.
+    + assert (Hz : (z = z / l * l)%R) by (field; lra).
+      unfold _orthogonal_basis, dot3. vsimp. destruct (Rleb 0 (z / l)) eqn:E; rb; cbn [fst snd].
+      * assert ((0 <= z)%R) by (rewrite Hz; apply Rmult_le_pos; lra). field. split; lra.
+      * assert ((z / l * l < 0)%R) by nra. assert ((z < 0)%R) by lra. field. split; lra.
+  - replace (dot3 (snd (_orthogonal_basis [(x / l)%R; (y / l)%R; (z / l)%R])) [x; y; z])
+      with (l * dot3 (snd (_orthogonal_basis [(x / l)%R; (y / l)%R; (z / l)%R])) [(x / l)%R; (y / l)%R; (z / l)%R])%R.
+    + rewrite H1. ring.
+    + assert (Hz : (z = z / l * l)%R) by (field; lra).
+      unfold _orthogonal_basis, dot3. vsimp. destruct (Rleb 0 (z / l)) eqn:E; rb; cbn [fst snd].
+      * assert ((0 <= z)%R) by (rewrite Hz; apply Rmult_le_pos; lra). field. split; lra.
+      * assert ((z / l * l < 0)%R) by nra. assert ((z < 0)%R) by lra. field. split; lra.
 Qed.
